@@ -62,7 +62,7 @@ Theorem C15_ascii_table_side_conditions :
 Proof. exact ascii_specials_not_word_or_space. Qed.
 Theorem C15_tokenizer_literals_are_the_code's :
   tokenize_literals =
-  [[cBS]; [cRB; cBT; cPCT]; [cDQ; cPCT; cSQ; cRP; cRS; cBT; cRB]; [cBT; cLP; cLS; cDQ; cSQ]; [cRB; cRP; cRS];
+  [[cBS]; [cRB; cBT; cPCT]; [cDQ; cPCT; cSQ; cRP; cRS; cBT; cRB]; [cBT; cLP; cLS; cDQ; cSQ]; [cRB; cRP; cRS]; [cLB]; [cRB];
    [cPCT]; [cLB]; [cBT]; [cLP; cLS]; [cLP]; [cRP; cRS]; [cDQ; cSQ]].
 Proof. exact tokenizer_literals_match. Qed.
 
